@@ -574,4 +574,14 @@ def main():
 
 
 if __name__ == "__main__":
-    main()
+    # exit 1 is reserved for a violation reported with a VIOLATION line: a crash of the machinery itself (Python's
+    # default exit status for an uncaught exception is 1) must never look like one
+    try:
+        main()
+    except SystemExit:
+        raise
+    except BaseException as e:   # noqa
+        import traceback
+        traceback.print_exc()
+        print("UNDECIDED: tool error in the runner: %s: %s" % (type(e).__name__, str(e)[:300]))
+        sys.exit(2)
